@@ -46,7 +46,7 @@ LNAMES = ('x', 'y', 'z', 'a')
 CTXS = ('return', 'assign', 'if', 'try', 'with', 'listcomp', 'dictcomp', 'genexp', 'nested', 'lambda',
         'decoyarg', 'ternary', 'nested2', 'lambda_default', 'walrus', 'fstring', 'starred_display',
         'nested_decoyarg', 'lambda_decoykw', 'lambda_subscript', 'comp_rebinds_args', 'comp_rebinds_kwargs',
-        'loop_rebinds_args', 'loop_rebinds_kwargs',
+        'loop_rebinds_args', 'loop_rebinds_kwargs', 'text_col0', 'continuation_col0',
         'nested_lambda', 'lambda_lambda',
         'nested_early', 'lambda_early', 'nested_listcomp', 'lambda_dictcomp', 'nested_listcomp_early', 'lambda_dictcomp_early',
         'nested_genexp_early', 'lambda_setcomp_early', 'genexp_lazy', 'genexp_lazy_early', 'async_nested', 'async_nested_early')
@@ -271,8 +271,11 @@ def normalise(prog):
 
 # --------------------------------------------------------------------------- rendering
 
+COL0 = '\x01'      # marks a physical line that stays in column 0 whatever block it is written in
+
+
 def _indent(text, n=4):
-    return ''.join(' ' * n + l if l.strip() else l for l in text.splitlines(True))
+    return ''.join(l if l.startswith(COL0) else ' ' * n + l if l.strip() else l for l in text.splitlines(True))
 
 
 def _leaf_src(i, spec, kind, as_method=False, deco=''):
@@ -404,6 +407,11 @@ def _stmt(ctx, expr, j):
         return 'def _inner%d():\n    return DECOY(%s)\n%s = _inner%d()\n' % (j, expr, r, j)
     if ctx == 'lambda_decoykw':
         return '%s = (lambda: DECOY(x=%s))()\n' % (r, expr)
+    if ctx == 'text_col0':
+        # an unrelated multi-line string whose text starts in column 0 (less indented than a method's def)
+        return '_txt%d = \"\"\"text\n%sin column zero\n\"\"\"\n%s = %s\n' % (j, COL0, r, expr)
+    if ctx == 'continuation_col0':
+        return '%s = DECOY(%s,\n%s0)\n' % (r, expr, COL0)
     if ctx == 'loop_rebinds_args':
         # the second iteration forwards what the first one left behind
         return 'for _i%d in (0, 1):\n    %s = %s\n    {A} = HA\n' % (j, r, expr)
@@ -617,7 +625,7 @@ def render(prog):
         src += ''.join(leaf_srcs) + 'NONCALLABLE = 5\n' + wdef + 'TARGET = WFUNC = w\n'
     else:
         src += ''.join(leaf_srcs) + wdef + 'TARGET = WFUNC = w\n'
-    return src
+    return ''.join(l[1:] if l.startswith(COL0) else l for l in src.splitlines(True))
 
 
 # --------------------------------------------------------------------------- ground truth
